@@ -41,7 +41,7 @@ func init() {
 		ID:    "C12",
 		Level: "exploration",
 		Rule: "E1 + depth-bounded E2: (of) every subset of the 11 boundary positions {0,1,62,63,64,65,127,128,129,191,192} × n in {absent,-5,0,1,63,64,65,128,129,193,300}: word count and exact bit set of Of, ToArray(Of(l)) = l, Of(ToArray(b)) = b up to trailing zero words, and Get/Get1 inside plus SafeGet/SafeGet1 at every probe in [-70, 64·words+70); " +
-			"(ofmany) every sequence of ≤3 segments (positions ⊂ {0,1,63,64,65}, size in {0,1,63,64,65,130}) whose shifted concatenation is strictly ascending, against the set model and the reference word count; " +
+			"(ofmany) every sequence of ≤3 segments (positions ⊂ {0,1,63,64,65}, size in {0,1,63,64,65,130}; positions ≥ size included, so the shifted concatenation need not be ascending) whose shifted bits all fit into the word count the statement gives, against the set model and that word count; " +
 			"(builder) every sequence of ≤3 operations over the 216-operation alphabet (and every sequence of 4..R operations over a 10-operation sub-alphabet) {Extend(those 192 segments), Set(pos in {0,1,63,64,65,200}, value in 0..3)} executed on a real Builder from NewBuilder(0) and NewBuilder(256): set bits, Offset, capacity for every bit, and exact equality with the reference Of for Extend-only histories with ascending positions. A case is one call / one history; non-trivial when at least one bit is set.",
 		Assumptions: []string{"positions beyond 300 and longer histories are not enumerated; non-ascending lists are outside Of's and OfMany's statement"},
 		Run:         c12Run,
@@ -216,6 +216,29 @@ func c12Ops() []c12Op {
 		}
 	}
 	return ops
+}
+
+// c12InDomain: OfMany is defined as "the bitmap Of would build from the shifted
+// positions". Segments may hold positions ≥ their size, so the concatenation
+// need not be ascending; Of sizes its result by the LAST listed position
+// (statement: ceil(max(n, last+1, 0)/64) words). The call is inside the
+// statement exactly when every shifted bit fits into that many words; then the
+// expected bitmap has exactly the shifted bits.
+func c12InDomain(all []int32, total int32) bool {
+	bits := total
+	if len(all) > 0 && all[len(all)-1]+1 > bits {
+		bits = all[len(all)-1] + 1
+	}
+	if bits < 0 {
+		bits = 0
+	}
+	words := (bits + 63) / 64
+	for _, p := range all {
+		if p < 0 || p >= 64*words {
+			return false
+		}
+	}
+	return true
 }
 
 // c12Shift returns the shifted concatenation and whether it is strictly ascending.
@@ -440,15 +463,15 @@ func c12Run(c *mc.Ctx) {
 	c.Set("segment_alphabet", ns)
 	// sequences of length 0..3; only those in Of's domain are cases
 	var inDomain, skipped int64
-	c.NoExpectNote("OfMany: the number of sequences with a strictly ascending shifted concatenation has no closed form; all 1+192+192²+192³ sequences are generated and the in-domain ones counted")
+	c.NoExpectNote("OfMany: the number of sequences inside the statement (every shifted bit fits into the result) has no closed form; all 1+192+192²+192³ sequences are generated and the in-domain ones counted")
 	c.Par(ns+2, func(k int) {
 		if c.TooMany() {
 			return
 		}
 		var evals, nontriv, skip int64
 		run := func(ss []c12Seg) {
-			all, _, asc := c12Shift(ss)
-			if !asc {
+			all, total, _ := c12Shift(ss)
+			if !c12InDomain(all, total) {
 				skip++
 				return
 			}
